@@ -53,6 +53,7 @@ func verifGenSchema(tag string, depth int) Schema {
 			o.Name = "fx"
 			o.Size = int(verifNarrow(tag + ".size"))
 			o.Namespace = verifC14Names[verifChoice(tag+".ns", 2)]
+			o.LogicalType = []string{"", "decimal"}[verifChoice(tag+".logical", 2)]
 		case 3:
 			s.Type = "enum"
 			o.Name = "en"
@@ -62,7 +63,7 @@ func verifGenSchema(tag string, depth int) Schema {
 		}
 		return s
 	case 2: // record: no field, the free child alone, or the free child and a fixed sibling on either side
-		o := &SchemaObject{Name: "rec", Namespace: verifC14Names[verifChoice(tag+".ns", 2)]}
+		o := &SchemaObject{Name: "rec", Namespace: verifC14Names[verifChoice(tag+".ns", 2)], LogicalType: []string{"", "lt"}[verifChoice(tag+".logical", 2)]}
 		shape := verifChoice(tag+".fields", 4)
 		if shape > 0 {
 			child := SchemaRecordField{Name: "f0", Type: verifGenSchema(tag+".f0", depth-1)}
